@@ -8,7 +8,7 @@ CONSTANTS
   InheritBound <- MCInheritBound
   MaxDepth = 5
   Starts <- StartsRes
-  Allowed = {"resources.shadow.deep", "fresh.aboveMax", "maxid.setObject", "counts.indirect", "delete.bookmark"}
+  Allowed = {"resources.shadow.incremental"}
   Emit = TRUE
   EmitMod = 1000
   EmitModV = 200
